@@ -152,7 +152,7 @@ class C14(Prop):
                 and len(impl['alloc_df']) == 2 and impl['alloc_df'][0] != 'err':
             cols, table = impl['alloc_df']
             mcols, mrows = mtable
-            if list(cols) != list(mcols):
+            if sorted(cols) != sorted(mcols):          # (column order is not an observable of the property)
                 j.disagreements.append('allocation table columns model=%s impl=%s' % (mcols, cols))
             elif [d for d, _ in table] != [d for d, _ in mrows]:
                 j.disagreements.append('allocation table dates model=%s... impl=%s...' % ([d for d, _ in mrows][:4], [d for d, _ in table][:4]))
